@@ -153,6 +153,15 @@ class C10(Property):
                 if len(data) <= 300 and rng.random() < 0.3:
                     cases.append(Case("framesched " + " ".join("i c%02x" % b for b in data), tags=("interrupted-bytewise-" + enc,)))
 
+        # the same text in every encoding through the PATH entry point (a file on disk and a pipe path): from_path must detect
+        # the byte-order mark exactly like from_bytes (seed C10-l: the file read as lossy UTF-8 first)
+        for _ in range(40 if quick else 1500):
+            text, _ = gen_text(rng)
+            if text.startswith("\ufeff"):
+                continue
+            for enc, data in encodings(text).items():
+                cases.append(Case("frompath " + hexs(data), tags=("from_path-" + enc,)))
+
         # scalar values as single-character content
         if quick:
             cps = list(SPECIAL_SCALARS) + list(range(0x0, 0x100)) + list(range(0x9F0, 0xA10))
